@@ -26,15 +26,20 @@ fn gen_widths(rng: &mut Rng) -> Vec<usize> {
     ws
 }
 
+struct VarInfo {
+    doc_len: usize,
+    interesting: Vec<usize>,
+    default_opts: bool,
+    free_parse_ok: bool,
+}
+
 struct Gen<'a> {
     wl: &'a mut Rng,
     fr: &'a mut Rng,
-    doc_len: usize,
-    interesting: Vec<usize>,
+    vars: Vec<VarInfo>,
+    cur: usize,
     widths: Vec<usize>,
     rich: bool,
-    default_opts: bool,
-    free_parse_ok: bool,
     deco: Deco,
     next_slot: u32,
 }
@@ -47,7 +52,18 @@ impl<'a> Gen<'a> {
             cut: faulty,
             hard_error: faulty,
         };
-        gen_plan(self.fr, self.doc_len, &self.interesting, &g)
+        let v = &self.vars[self.cur];
+        gen_plan(self.fr, v.doc_len, &v.interesting, &g)
+    }
+    /// Possibly switch this thread to another (document, configuration) variant.
+    fn maybe_switch(&mut self, ops: &mut Vec<Op>) {
+        if self.vars.len() > 1 && self.wl.chance(2, 5) {
+            let v = self.wl.usize_below(self.vars.len());
+            if v != self.cur {
+                self.cur = v;
+                ops.push(Op::Use { variant: v as u32 });
+            }
+        }
     }
     fn w(&mut self) -> usize {
         self.wl.pick(&self.widths)
@@ -65,7 +81,7 @@ impl<'a> Gen<'a> {
         if self.rich {
             choices[2] = 15;
         }
-        if self.default_opts {
+        if self.vars[self.cur].default_opts {
             match self.deco {
                 Deco::Plain => choices[3] = 12,
                 Deco::Rich => {
@@ -117,7 +133,7 @@ impl<'a> Gen<'a> {
         let d = self.slot();
         let t = self.slot();
         let mut dom_alive = false;
-        if self.free_parse_ok && self.wl.chance(1, 6) {
+        if self.vars[self.cur].free_parse_ok && self.wl.chance(1, 6) {
             let plan = self.plan(faulty);
             ops.push(Op::FreeParse { plan, tree: t });
         } else {
@@ -209,46 +225,102 @@ pub fn generate(run_seed: u64) -> Scenario {
     let widths = gen_widths(&mut wl);
 
     let rich = matches!(config.decorator, Deco::Rich);
-    let default_opts = config.is_default_options();
-    let free_parse_ok = !has_style_rules(&config);
     let deco = config.decorator.clone();
     let doc_len = doc.len();
+
+    // --- sometimes a second (document, configuration) pair in the same
+    // history: "independent of what was rendered before" includes other
+    // documents and other configurations.
+    let mut variants: Vec<Variant> = Vec::new();
+    let mut vars = vec![VarInfo {
+        doc_len,
+        interesting,
+        default_opts: config.is_default_options(),
+        free_parse_ok: !has_style_rules(&config),
+    }];
+    if wl.chance(1, 3) {
+        let vdoc = if wl.chance(3, 4) {
+            let target = match wl.weighted(&[20, 50, 30]) {
+                0 => wl.urange(1, 64),
+                1 => wl.urange(65, 1500),
+                _ => wl.urange(3500, 9000),
+            };
+            let mut p2 = DocParams::swarm(&mut wl, target);
+            p2.max_depth = p2.max_depth.min(12);
+            p2.links = true;
+            p2.huge_nums = false;
+            Some(gen_doc(&mut wl, p2))
+        } else {
+            None
+        };
+        let vcfg = if vdoc.is_none() || wl.chance(1, 2) {
+            let mut c2 = gen_config(&mut wl, &cg);
+            c2.decorator = config.decorator.clone();
+            Some(c2)
+        } else {
+            None
+        };
+        let eff_cfg = vcfg.clone().unwrap_or_else(|| config.clone());
+        let (dl, int) = match &vdoc {
+            Some(d) => (d.len(), interesting_offsets(d)),
+            None => (doc_len, vars[0].interesting.clone()),
+        };
+        vars.push(VarInfo {
+            doc_len: dl,
+            interesting: int,
+            default_opts: eff_cfg.is_default_options(),
+            free_parse_ok: !has_style_rules(&eff_cfg),
+        });
+        variants.push(Variant {
+            doc: vdoc.map(|d| DocSpec::Bytes { bytes: Blob(d) }),
+            config: vcfg,
+        });
+    }
 
     let nthreads = if class == 2 { wl.urange(2, 4) } else { 1 };
     let mut threads = Vec::new();
     let mut g = Gen {
         wl: &mut wl,
         fr: &mut fr,
-        doc_len,
-        interesting,
+        vars,
+        cur: 0,
         widths,
         rich,
-        default_opts,
-        free_parse_ok,
         deco,
         next_slot: 0,
     };
     let faulty_run = g.wl.chance(1, 2);
     for tid in 0..nthreads {
         let mut ops = Vec::new();
+        g.cur = 0;
         match class {
             0 => {
                 let n = g.wl.urange(2, 7);
                 // always include the plain one-shot delivery of some route too
                 for _ in 0..n {
+                    g.maybe_switch(&mut ops);
                     g.one_shot(&mut ops, faulty_run);
                 }
             }
             1 => {
                 let n = g.wl.urange(3, 10);
+                g.maybe_switch(&mut ops);
+                if g.vars.len() > 1 && g.wl.chance(1, 2) {
+                    // two interleaved histories over different documents
+                    let n1 = g.wl.urange(1, 4);
+                    g.history(&mut ops, n1, faulty_run);
+                    g.maybe_switch(&mut ops);
+                }
                 g.history(&mut ops, n, faulty_run);
                 if g.wl.chance(1, 3) {
+                    g.maybe_switch(&mut ops);
                     g.one_shot(&mut ops, faulty_run);
                 }
             }
             _ => {
                 let segs = g.wl.urange(1, 3);
                 for _ in 0..segs {
+                    g.maybe_switch(&mut ops);
                     if g.wl.chance(1, 2) {
                         let n = g.wl.urange(1, 3);
                         for _ in 0..n {
@@ -271,8 +343,8 @@ pub fn generate(run_seed: u64) -> Scenario {
                 }
             }
         }
-        if ops.len() > 14 {
-            ops.truncate(14);
+        if ops.len() > 16 {
+            ops.truncate(16);
         }
         // Repeat one op verbatim (fresh hash-map keys, later position in the
         // history; in interleaved runs also on another thread's schedule).
@@ -302,7 +374,7 @@ pub fn generate(run_seed: u64) -> Scenario {
                 2 => er.urange(5, 20),
                 _ => er.urange(21, 80),
             };
-            let horizon = (doc_len as u64 * 40 + 2000).max(2);
+            let horizon = (g.vars.iter().map(|v| v.doc_len).max().unwrap_or(0) as u64 * 40 + 2000).max(2);
             for _ in 0..n {
                 // log-uniform over the horizon
                 let bits = er.range(1, 63 - horizon.leading_zeros() as u64 + 1);
@@ -376,6 +448,7 @@ pub fn generate(run_seed: u64) -> Scenario {
         sched,
         fuel: crate::eval::fuel_override().unwrap_or(FUEL),
         corrupt_events: 0,
+        variants,
     }
 }
 
@@ -414,10 +487,11 @@ pub struct Verdict {
 /// delivered bytes and the width, whatever the route, delivery, history or
 /// interleaving.
 pub fn check(scen: &Scenario, res: &RunResult) -> Verdict {
-    let doc = scen.doc.materialise();
-    let mut refs: HashMap<(usize, usize), (Outcome, Outcome)> = HashMap::new();
+    let nvar = scen.num_variants();
+    let docs: Vec<Vec<u8>> = (0..nvar).map(|v| scen.variant_doc(v).materialise()).collect();
+    let specs: Vec<ConfigSpec> = (0..nvar).map(|v| scen.variant_config(v)).collect();
+    let mut refs: HashMap<(usize, usize, usize), (Outcome, Outcome)> = HashMap::new();
     let mut compared = 0u64;
-    let free_ok = !has_style_rules(&scen.config);
     for r in &res.records {
         let (Some(limit), Some(w)) = (r.limit, r.width) else {
             // ops without a rendered result: a panic in them is still a
@@ -431,12 +505,14 @@ pub fn check(scen: &Scenario, res: &RunResult) -> Verdict {
         if matches!(r.outcome, Outcome::Skipped | Outcome::Unit) {
             continue;
         }
-        if r.free_tree && !free_ok {
+        let var = (r.variant as usize).min(nvar - 1);
+        let doc = &docs[var];
+        if r.free_tree && has_style_rules(&specs[var]) {
             continue;
         }
         let (sref, lref) = refs
-            .entry((limit, w))
-            .or_insert_with(|| reference(scen, &doc, limit, w, scen.fuel));
+            .entry((var, limit, w))
+            .or_insert_with(|| reference(&specs[var], doc, limit, w, scen.fuel));
         if matches!(sref, Outcome::Fuel) || matches!(lref, Outcome::Fuel) {
             return Verdict {
                 violation: None,
@@ -498,13 +574,14 @@ pub fn check(scen: &Scenario, res: &RunResult) -> Verdict {
                     kind: "mismatch".into(),
                     signature: sig,
                     detail: format!(
-                        "thread {} op #{} {} at width {} on the first {} of {} bytes: {}",
+                        "thread {} op #{} {} at width {} on the first {} of {} bytes{}: {}",
                         r.thread,
                         r.index,
                         r.name,
                         w,
                         limit,
                         doc.len(),
+                        if var > 0 { format!(" of variant {}", var) } else { String::new() },
                         why
                     ),
                 }),
